@@ -189,3 +189,12 @@ func VerifTwinFails(n int) {
 	out := Number(buf, 0)
 	vAssert(len(out) < 0, "twin: unreachable assertion must fail")
 }
+
+// VerifTotalTwin: vacuity twin for the totality checks: a reachable index panic must be reported.
+func VerifTotalTwin(n int) {
+	buf := vBytes("in", n)
+	out := Number(buf, 0)
+	if len(out) == n {
+		_ = out[n] // out of range
+	}
+}
